@@ -87,6 +87,15 @@ class udp(packet_base):
 
         self.hdr_len = udp.MIN_LEN
         self.payload_len = self.len - self.hdr_len
+
+        if dlen < self.len:
+            # Not all of the datagram is here (e.g., this is the first
+            # fragment of a larger one).  Leave it unparsed, so that it's
+            # passed along as it is rather than re-packed around whatever
+            # happens to be present.
+            self.msg('(udp parse) warning UDP packet data shorter than UDP len: %u < %u' % (dlen, self.len))
+            return
+
         self.parsed = True
 
         if self.len < udp.MIN_LEN:
